@@ -8,8 +8,8 @@
 From ZC Require Import Model.BlockGen Proof.BlockGenUtil Proof.BlockGen Corr.BlockGen.
 Open Scope Z_scope.
 
-(* The model is the tree with the fixes 2f9cdcc (pool transactions named like a built-in are skipped)
-   and 3df99c9 (cost comparisons against the remaining budget).  Before them the statement was false
+(* The model is the tree with the fixes 1f71793 (pool transactions named like a built-in are skipped)
+   and fe583b6 (cost comparisons against the remaining budget).  Before them the statement was false
    for pools with a built-in function name or a math.MaxInt cost; it now holds for them too.
    Hypotheses, spelled out:
    [bg_pool_ok pool]   every pool transaction passed admission (bt_valid: hash, signature, ids), the cost
@@ -96,7 +96,7 @@ Theorem C45_builtin_at_most_once :
 Proof. exact bg_builtin_at_most_once. Qed.
 Print Assumptions C45_builtin_at_most_once.
 
-(* ---------- the former counterexamples (before 2f9cdcc / 3df99c9) now verify ---------- *)
+(* ---------- the former counterexamples (before 1f71793 / fe583b6) now verify ---------- *)
 Definition c45_cfg : bg_cfg :=
   {| bc_maxcost := 100; bc_maxbytes := 1000000; bc_tol := 600; bc_bdate := 5000; bc_miner := 999; bc_fee := false; bc_minfee := 0 |}.
 Definition c45_txn (h c n cost fn kind v to : Z) : bg_txn :=
